@@ -148,6 +148,7 @@ Proof.
   - destruct (Hmod _ _ H) as [g Hg]. exists (S g). cbn [run init step]. rewrite Hg. now destruct r as [[[] ?] ?].
   - destruct (Hmod _ _ H) as [g Hg]. exists (S g). cbn [run init step]. rewrite Hg. now destruct r as [[[] ?] ?].
   - destruct (Hmod _ _ H) as [g Hg]. exists (S g). cbn [run init step]. rewrite Hg. now destruct r as [[[] ?] ?].
+  - destruct (Hmod _ _ H) as [g Hg]. exists (S g). cbn [run init step]. rewrite Hg. now destruct r as [[[] ?] ?].
   - exists 2%nat. exact H.
   - destruct (eval f lc h1 st tr) as [[[o st1] tr1]|] eqn:Ea; [|discriminate].
     destruct (IH _ _ _ _ Ea) as [ga Ha]. cbn [init].
@@ -166,9 +167,9 @@ Qed.
 (* ---- and produces no other ---- *)
 Theorem run_eval g : forall h st tr r, run g lc (init h) st tr = Some r -> exists f, eval f lc h st tr = Some r.
 Proof.
-  induction g as [g IHg] using lt_wf_ind. intros h. induction h as [| e | | l v | l | src dst d | l k v | l k | l | l k | a IHa b IHb | a IHa b IHb | a IHa];
+  induction g as [g IHg] using lt_wf_ind. intros h. induction h as [| e | | l v | l | src dst d | l k v | l k | l | l k d | l k | a IHa b IHb | a IHa b IHb | a IHa];
     intros st tr r H.
-  1-10: (destruct g as [|g]; [discriminate|]; cbn [run init step conseq] in H).
+  1-11: (destruct g as [|g]; [discriminate|]; cbn [run init step conseq] in H).
   - exists 1%nat. exact H.
   - exists 1%nat. exact H.
   - exists 1%nat. exact H.
@@ -201,6 +202,12 @@ Proof.
     + exists 1%nat. cbn [eval conseq]. rewrite Ei. exact H.
   - (* HClrM *)
     destruct (item_event lc (do_clear st l) (IMap l)) as [[c|] st2] eqn:Ei.
+    + destruct (run g lc (init c) st2 tr) as [[[o st3] tr3]|] eqn:Ec; [|discriminate].
+      destruct (IHg g (Nat.lt_succ_diag_r g) _ _ _ _ Ec) as [f Hf]. exists (S f). cbn [eval conseq]. rewrite Ei, Hf.
+      now destruct o.
+    + exists 1%nat. cbn [eval conseq]. rewrite Ei. exact H.
+  - (* HTrnM *)
+    destruct (item_event lc (do_transform st l k d) (IMap l)) as [[c|] st2] eqn:Ei.
     + destruct (run g lc (init c) st2 tr) as [[[o st3] tr3]|] eqn:Ec; [|discriminate].
       destruct (IHg g (Nat.lt_succ_diag_r g) _ _ _ _ Ec) as [f Hf]. exists (S f). cbn [eval conseq]. rewrite Ei, Hf.
       now destruct o.
@@ -427,7 +434,7 @@ Fixpoint modifies_below (r : nat) (h : handler) : Prop :=
   match h with
   | HSetV l _ => (rank (IVal l) < r)%nat
   | HCopy _ dst _ => (rank (IVal dst) < r)%nat
-  | HUpdM l _ _ | HRemM l _ | HClrM l => (rank (IMap l) < r)%nat
+  | HUpdM l _ _ | HRemM l _ | HClrM l | HTrnM l _ _ => (rank (IMap l) < r)%nat
   | HSeq a b | HThen a b => modifies_below r a /\ modifies_below r b
   | HWrap a => modifies_below r a
   | _ => True
@@ -457,7 +464,7 @@ Proof.
   { intros it st1 tr Hlt. unfold conseq. destruct (item_event lc st1 it) as [[c|] st2] eqn:Ei.
     - destruct (IHr _ Hlt c (item_event_below _ _ _ _ Hs Ei) st2 tr) as (f & res & Hf). now exists f, res.
     - exists O. eauto. }
-  induction h as [| e | | l v | l | src dst d | l k v | l k | l | l k | a IHa b IHb | a IHa b IHb | a IHa]; intros Hb st tr.
+  induction h as [| e | | l v | l | src dst d | l k v | l k | l | l k d | l k | a IHa b IHb | a IHa b IHb | a IHa]; intros Hb st tr.
   - exists 1%nat. eexists. reflexivity.
   - exists 1%nat. eexists. reflexivity.
   - exists 1%nat. eexists. reflexivity.
@@ -467,6 +474,7 @@ Proof.
   - destruct (Hmod (IMap l) (do_update st l k v) tr Hb) as (f & res & Hf). exists (S f), res. exact Hf.
   - destruct (Hmod (IMap l) (do_remove st l k) tr Hb) as (f & res & Hf). exists (S f), res. exact Hf.
   - destruct (Hmod (IMap l) (do_clear st l) tr Hb) as (f & res & Hf). exists (S f), res. exact Hf.
+  - destruct (Hmod (IMap l) (do_transform st l k d) tr Hb) as (f & res & Hf). exists (S f), res. exact Hf.
   - exists 1%nat. eexists. reflexivity.
   - destruct Hb as [Ha Hb]. destruct (IHa Ha st tr) as (fa & [[oa st1] tr1] & Hfa). destruct oa.
     + destruct (IHb Hb st1 tr1) as (fb & rb & Hfb). exists (S (fa + fb)), rb. cbn [eval].
